@@ -31,6 +31,7 @@ import (
 var (
 	repoDir  = envOr("VERIF_REPO", "/repo")
 	verifDir = envOr("VERIF_DIR", "/verif")
+	outDir   = envOr("VERIF_OUT", verifDir) // evidence/ and replays/ are written below this directory
 )
 
 func envOr(k, d string) string {
@@ -544,9 +545,9 @@ type evidence struct {
 }
 
 func writeEvidence(ev *evidence) {
-	os.MkdirAll(filepath.Join(verifDir, "evidence"), 0755)
+	os.MkdirAll(filepath.Join(outDir, "evidence"), 0755)
 	b, _ := json.MarshalIndent(ev, "", " ")
-	os.WriteFile(filepath.Join(verifDir, "evidence", ev.PropertyID+".json"), append(b, '\n'), 0644)
+	os.WriteFile(filepath.Join(outDir, "evidence", ev.PropertyID+".json"), append(b, '\n'), 0644)
 }
 
 func inconclusive(prop, tier string, seed int64, t0 time.Time, reason string) int {
@@ -645,7 +646,7 @@ func conclude(prop, tier string, seed int64, t0 time.Time, loadS float64, result
 	}
 
 	// native replay: findings + translator validation vectors
-	replayRoot := filepath.Join(verifDir, "replays", prop)
+	replayRoot := filepath.Join(outDir, "replays", prop)
 	os.RemoveAll(replayRoot)
 	os.MkdirAll(replayRoot, 0755)
 	type pending struct {
